@@ -178,15 +178,15 @@ def run(ctx):
         for name in ("_exit_states", "_enter_states", r.executor.name):
             for call in self_calls_in(d, name):
                 heavy |= set(cfg_node_of(d, call))
-        tests = [n for n in g.nodes if n.kind == "test" and
-                 any(isinstance(x, ast.Attribute) and x.attr in ("target_str", "reenter") for x in ast.walk(n.ast))]
+        from sa.util import expand_names
+        tests = [n for n in g.nodes if n.kind == "test" and n.ast is not None and
+                 any(isinstance(x, ast.Attribute) and x.attr in ("target_str", "reenter") for x in ast.walk(expand_names(d, n.ast)))]
         tests = [t for t in tests if not enclosing_loops(d, t.ast) and in_handler(d, t.ast) is None]
         c.expect("R6", f"targetless/internal tests in {d.short}", len(tests), 2, d, f"{d.short} no longer separates targetless and internal self-transitions from external ones: they exit and re-enter their source (entry/exit actions run, timers restart)")
         for t in tests[:2]:
             region = g.reachable([dd for dd, lab in g.succ[t.id] if lab == "T"], follow_exc=False)
             bad = region & heavy
-            returns = [n for n in region if g.nodes[n].kind == "stmt" and isinstance(g.nodes[n].ast, ast.Return)]
-            ok = not bad and bool(returns)
+            ok = not bad          # (a branch that fell through to the exit / entry calls would have them in its region)
             c.ob("R6", ok, d, f"actions-only:{norm(t.ast)[:40]}",
                  "branch runs the transition's actions and returns without exiting or entering any state" if ok else
                  "a targetless/internal transition reaches an exit/enter call", t.ast)
